@@ -32,11 +32,18 @@ class CountingLog:
     def critical(self, *a, **k):
         self._c("critical")
 
+    SPIN_LIMIT = 20000       # exceptions logged by one endpoint in one case: a swallow-and-retry loop that never yields logs without end
+
     def exception(self, msg="", *a, **k):
         self._c("exception")
         et, ev, _ = sys.exc_info()
         if len(self.exceptions) < 50:
             self.exceptions.append(f"{et.__name__ if et else None}: {ev}"[:300])
+        if self.counts["exception"] > self.SPIN_LIMIT:
+            # a logical step budget, not a wall-clock one; BaseException so that nothing in asyncfix swallows it
+            from vf.sim.net import SpinAbort
+            raise SpinAbort(f"{self.name}: {self.counts['exception']} exceptions logged in one case (last: {self.exceptions[-1] if self.exceptions else ''}): "
+                            "a loop that swallows an exception and retries without ever suspending")
 
     def isEnabledFor(self, *_):
         return False
